@@ -68,6 +68,10 @@ def run(ctx):
                        "set under `<results of the head line>.last().status == 0` (not first(), not an index, not any / all)")
     ctx.rule("R14-4", "run_exp_if leaves at the first passed branch; a body runs only under test_pass; `while` calls its "
                       "head test on every iteration; `for` calls set_env(var, value) before each body run, iterating forward")
+    ctx.rule("R14-12", "no script text runs without having been parsed: in run_lines every path to a return calls "
+                       "parse_lines, and everything that executes commands (run_exp, run_command_line, run_pipeline ...) is "
+                       "reached only in the Ok arm of that call - a pre-check that sends `simple` texts past the grammar "
+                       "lets a stray `fi` / `done` / `else` run as a command instead of being a syntax error")
     gpath = os.path.join(ctx.root, "src", "parsers", "grammar.pest")
     try:
         g = pest.Grammar(gpath)
@@ -84,6 +88,7 @@ def run(ctx):
         for_binding_rule(ctx, crate)
         for_words_rule(ctx, crate)
         condition_status_rule(ctx, crate)
+        parsed_first_rule(ctx, crate)
 
 
 def anchor_rule(ctx, crate, g):
@@ -544,3 +549,54 @@ def condition_status_rule(ctx, crate):
            key="R14-11|%s|condition-status" % b.path, where=b.loc((bad or good or [(runs[0], [])])[0][0]), crate=crate.kind,
            detail=None if ok else "the verdict is taken via %s: for `if a && b` / `while a || b` the wrong command decides" %
            ((bad[0][1] if bad else "no recognisable selection")))
+
+
+EXECUTORS = ("run_exp", "run_command_line", "run_proc", "run_pipeline", "run_lines", "run_script", "run_exp_if",
+             "run_exp_for", "run_exp_while", "run_exp_test_br")
+
+
+def parsed_first_rule(ctx, crate):
+    b = crate.fn("scripting::run_lines")
+    if not ctx.require(b is not None, "R14-12", "R14-12|anchor", "scripting::run_lines not found"):
+        return
+    ctx.analysed(b)
+    parses = {bb for bb, t, c in b.calls() if c.endswith("locust::parse_lines")}
+    if not ctx.require(bool(parses), "R14-12", "R14-12|%s|parse" % b.path, "run_lines does not call parse_lines", b.path):
+        return
+    rets = {bb for bb in b.reachable if b.term(bb)["k"] == "return"}
+    always = flow.must_pass(b, 0, parses, rets)
+    ctx.ob("R14-12", b.path, "parse_lines is called on every path of run_lines", always,
+           key="R14-12|%s|always-parsed" % b.path, crate=crate.kind,
+           detail=None if always else "some texts are run line by line without the block grammar: an unbalanced script made "
+           "only of closers / continuers (`fi`, `done`, `else`) is not diagnosed, its commands all run")
+    ok_arm = set()
+    for x in sorted(b.reachable):
+        for tgt, atom, val in b.switch_edges(x):
+            a = strip_sites(atom)
+            if a[0] == "discr" and val == "Ok" and any(
+                    sub[0] == "call" and sub[1].endswith("locust::parse_lines") for sub in mir.subexprs(a)):
+                from ..etag import edge_dominated
+                ok_arm |= edge_dominated(b, x, tgt)
+    execs = [(bb, last_seg(c)) for bb, t, c in b.calls() if last_seg(c) in EXECUTORS]
+    bad = [(bb, n_) for bb, n_ in execs if bb not in ok_arm]
+    ctx.ob("R14-12", b.path, "commands are executed only under Ok(parse_lines(..)) (%d executing call(s))" % len(execs),
+           bool(execs) and not bad, key="R14-12|%s|executes-parsed-only" % b.path, crate=crate.kind,
+           where=b.loc((bad or [(0, "")])[0][0]),
+           detail=None if not bad else "%s reached without a successful parse" % ", ".join(sorted({n_ for _, n_ in bad})))
+    # in the script interpreter, lines are handed to the executor only by the walkers of parsed nodes
+    n, bad = 0, []
+    for f in crate.fns():
+        if not (f.path.startswith("scripting::") or f.path.startswith("builtins::source")) or "::tests::" in f.path:
+            continue
+        sites = [bb for bb, t, c in f.calls() if c.endswith("execute::run_command_line")]
+        if not sites:
+            continue
+        n += len(sites)
+        top = crate.fn(f.parent) if f.kind == "closure" and getattr(f, "parent", None) else f
+        if not any("pest::iterators::Pair" in top.locals[l]["ty"] for l in range(1, top.arg_count + 1)):
+            bad.append((f, sites[0]))
+    if ctx.require(n >= 2, "R14-12", "R14-12|walkers", "expected the two executing walkers of scripting.rs, found %d call(s)" % n):
+        ctx.ob("R14-12", "scripting", "run_command_line is called only by functions that walk a parsed node (%d call(s))" % n,
+               not bad, key="R14-12|scripting|executor-callers", crate=crate.kind,
+               where=(bad[0][0].loc(bad[0][1]) if bad else None),
+               detail=None if not bad else "%s runs lines it did not get from the parser" % ", ".join(sorted({f.path for f, _ in bad})))
